@@ -39,7 +39,7 @@ def _rewrite_func(match):
 def osc_rematch_pattern(pattern, address):
     pattern = re.sub(_rewrite_pattern, _rewrite_func, pattern)
     try:
-        return re.match(pattern, address) is not None
+        return re.fullmatch(pattern, address) is not None
     except re.error:
         return False  # A malformed pattern matches nothing.
 
